@@ -183,6 +183,8 @@ JOBS['C13'] = [
     {'name': 'lbuf_search', 'harness': 'c13_search.c', 'units': ['lbuf', 'mot', 'sbuf', 'uc', 'rstr', 'rset', 'regex'],
      'defs': {'quick': {'LL': 2, 'NLN': 2}, 'thorough': {'LL': 3, 'NLN': 2, 'SYMIC': 1}},
      'expect_reach': ['end', 'found', 'notfound'], 'timeout': {'quick': 280, 'thorough': 1700}},
+    {'name': 'vi_search_sequences', 'harness': 'c13_vi.c', 'units': 'ALL', 'defs': {'quick': {'K': 2}, 'thorough': {'K': 3}}, 'expect_reach': ['end'],
+     'timeout': {'quick': 280, 'thorough': 1700}, 'max_steps': 60000000, 'validate': {'quick': 6, 'thorough': 12}},
     {'name': 'lbuf_search_3', 'harness': 'c13_search.c', 'units': ['lbuf', 'mot', 'sbuf', 'uc', 'rstr', 'rset', 'regex'], 'tiers': ['quick'],
      'defs': {'LL': 3, 'NLN': 2, 'TMASK': '0x13'},
      'expect_reach': ['end', 'found', 'notfound'], 'timeout': 280},
